@@ -21,6 +21,8 @@ pub struct RichOpts {
     pub plant: f64,
     /// force decoys on (C12)
     pub decoy_on: bool,
+    /// always bind a holder key and always present with a KB-JWT (C04)
+    pub kb_on: bool,
 }
 
 pub const ISSUER_KEYS: [(&str, &str); 3] = [("K1", "ES256"), ("KE1", "EdDSA"), ("S1", "HS256")];
@@ -32,7 +34,7 @@ pub fn run(ctx: &mut Ctx, o: &RichOpts) {
         ctx.reset("rich", "");
         let fmt = if r.gen_bool(0.5) { Fmt::Compact } else { Fmt::Json };
         let (key, alg) = ISSUER_KEYS[r.gen_range(0..3)];
-        let hk = match r.gen_range(0..3) {
+        let hk = match r.gen_range(if o.kb_on { 1 } else { 0 }..3) {
             0 => None,
             i => Some(HOLDER_KEYS[i - 1]),
         };
@@ -54,9 +56,10 @@ pub fn run(ctx: &mut Ctx, o: &RichOpts) {
         }
         let Some(mut holder) = holder_new(ctx, "P1", &issued, fmt).ok() else { continue };
         let arbitrary = r.gen_bool(o.arbitrary_sel);
-        let sel = if arbitrary { rsel_arbitrary_root(&claims, &mut r) } else { rsel_root(&claims, &mut r) };
+        // (an empty selection - nothing disclosed - is a case of its own: jwt~[kb], "disclosures": [])
+        let sel = if arbitrary { rsel_arbitrary_root(&claims, &mut r) } else if r.gen_bool(0.12) { serde_json::Map::new() } else { rsel_root(&claims, &mut r) };
         let kb = match hk {
-            Some((hkid, hkalg)) if r.gen_bool(0.6) => KbArgs {
+            Some((hkid, hkalg)) if o.kb_on || r.gen_bool(0.6) => KbArgs {
                 nonce: Some(rstr(&mut r, &o.tree)),
                 aud: Some(["https://verifier.example", "aud", ""][r.gen_range(0..3)].to_string()),
                 key: Some(hkid.to_string()),
@@ -80,7 +83,15 @@ pub fn run(ctx: &mut Ctx, o: &RichOpts) {
         }
         let Some(pres) = pres else { continue };
         // the verifier asks for key binding when the holder provided one (and sometimes not)
-        let ask = kb.key.is_some() && r.gen_bool(0.8);
+        let ask = kb.key.is_some() && (o.kb_on || r.gen_bool(0.8));
+        if o.xfmt {
+            // the same presentation re-expressed in the other serialization by the harness's transcoder (C10)
+            if let Some(m) = crate::msg::split(&pres, fmt) {
+                let var = [crate::msg::JsonVariant::KbAbsent, crate::msg::JsonVariant::KbNull, crate::msg::JsonVariant::Extra][r.gen_range(0..3)];
+                let other = crate::msg::render(&m, fmt.other(), var);
+                verify(ctx, &VerifyArgs { raw: &other, fmt: fmt.other(), res: &res, aud: if ask { kb.aud.as_deref() } else { None }, nonce: if ask { kb.nonce.as_deref() } else { None }, pair: ctx.case, expect: crate::jt::NONE.to_string() });
+            }
+        }
         verify(
             ctx,
             &VerifyArgs {
@@ -89,7 +100,7 @@ pub fn run(ctx: &mut Ctx, o: &RichOpts) {
                 res: &res,
                 aud: if ask { kb.aud.as_deref() } else { None },
                 nonce: if ask { kb.nonce.as_deref() } else { None },
-                pair: 0,
+                pair: if o.xfmt { ctx.case } else { 0 },
                 expect: crate::jt::NONE.to_string(),
             },
         );
